@@ -46,6 +46,7 @@ RULE = (
     "distinct_nontrivial = distinct (base edge list, transformation) with >= 1 edge and a non-identity transformation"
 )
 ASSUMPTIONS = [
+    'relabelling kinds (nodes and edge IDs): permuted, gapped, strings, mixed, big ints, floats, numpy ints, run-time strings, tuples, and hash twins (unequal labels with equal hashes: -1 / -2, i / i + 2**61 - 1)',
     "base network uses labels 0..n-1 / automatic edge IDs in insertion order (the situation of the test-suite fixtures); every other labelling is compared with it, so a defect that is label-independent is invisible here (C12/C14/C15 own that)",
     "numbers are compared with |a-b| <= 1e-9 * max(1, |a|, |b|) (all compared quantities are O(1)-O(100); exact cancellations such as Laplacian entries or correlation coefficients may differ in the last ulp under a different summation order); NaN == NaN, inf == inf",
     "results that are dicts are compared as mappings (iteration order of a result legitimately follows insertion order); components as a set of sets; largest_connected_component by size only (ties are broken by order); duplicates() by {member set: number of IDs returned} because *which* ID of a class is kept depends on the labels",
